@@ -153,15 +153,19 @@ func (g *Gen) RegSet(cfg GenCfg) []*Reg {
 				if g.p(0.2) {
 					t = 16 + g.n(4)
 				}
-				nm := 0
+				nm, grp := 0, 0
 				if g.p(cfg.PName) {
 					nm = 1 + g.n(3)
+				} else if g.p(cfg.PGroup) {
+					grp = 1 + g.n(2) // a group:"…" field: one more member of that group (repeats allowed)
 				}
-				if seen[ident{t, nm, 0}] {
-					continue
+				if grp == 0 {
+					if seen[ident{t, nm, 0}] {
+						continue
+					}
+					seen[ident{t, nm, 0}] = true
 				}
-				seen[ident{t, nm, 0}] = true
-				reg.Form.Fields = append(reg.Form.Fields, Field{Ty: t, Name: nm})
+				reg.Form.Fields = append(reg.Form.Fields, Field{Ty: t, Name: nm, Group: grp})
 				d := t
 				if t >= 16 {
 					d = g.concrete(cfg)
